@@ -21,12 +21,36 @@ class Hang(BaseException):
     """A guarded call did not finish within its guard."""
 
 
+_BEAT = None     # shared doubles: when this worker last showed a sign of life
+                 # (wall clock, CPU clock of the worker)
+
+
+def _beat():
+    if _BEAT is not None:
+        _BEAT[0] = time.time()
+        _BEAT[1] = time.process_time()
+
+
+_TICK = os.sysconf('SC_CLK_TCK') if hasattr(os, 'sysconf') else 100
+
+
+def _cpu_of(pid):
+    """CPU seconds (user + system) a process has used so far."""
+    try:
+        with open('/proc/%d/stat' % pid) as fh:
+            fields = fh.read().rsplit(')', 1)[1].split()
+        return (int(fields[11]) + int(fields[12])) / _TICK
+    except (OSError, IndexError, ValueError):
+        return None
+
+
 def _arm(seconds):
     """Arm both timers of the hang guard.  The tight one counts *CPU time of
     this process* (ITIMER_PROF): a non-terminating pure-Python call burns CPU,
     and a CPU clock does not fire merely because the machine is loaded or the
     process was descheduled.  A generous wall-clock backstop (ITIMER_REAL)
     catches a call that blocks without using CPU."""
+    _beat()
     signal.setitimer(signal.ITIMER_PROF, seconds)
     signal.setitimer(signal.ITIMER_REAL,
                      0 if not seconds else max(120, 20 * seconds))
@@ -366,6 +390,135 @@ def _limit_memory():
         pass
 
 
+def _worker_main(conn, beat):
+    global _BEAT
+    _BEAT = beat
+    _limit_memory()
+    while True:
+        try:
+            item = conn.recv()
+        except (EOFError, OSError):
+            return
+        if item is None:
+            return
+        _beat()
+        conn.send(_run_one(item))
+
+
+def _lost(mod, tier, seed, item, fingerprint, message, observed):
+    """The result of a task whose worker process did not survive it: the
+    library runs inside that process, so a call that never gives control back
+    to the interpreter (a loop inside C code) or takes the process down is a
+    verdict about the library, not an engine error."""
+    idx, task = item
+    ctx = Ctx(mod.ID, tier, seed)
+    ctx.cap('task %r abandoned: %s' % (task, observed))
+    ctx.violation('%s|%r' % (fingerprint, task),
+                  'task {!r}: {}'.format(task, message),
+                  {'kind': 'hang', 'task': repr(task)}, 'termination',
+                  observed)
+    out = ctx.export()
+    out.update(index=idx, task=repr(task)[:80], wall=0.0, error=None)
+    return out
+
+
+def _dispatch(mod, indexed, nworkers):
+    """A process pool that survives its workers: every worker has its own
+    pipe and a heartbeat (refreshed whenever the in-process watchdog is
+    re-armed, i.e. at least every 64 cases). A worker that dies, or that shows
+    no sign of life for `hard` seconds although its own watchdog should have
+    fired (the call never returns to the interpreter), is killed and replaced;
+    its task is reported as a violation and the other tasks go on."""
+    from multiprocessing import connection
+    ctxm = multiprocessing.get_context('fork')
+    tier, seed = _WORK['tier'], _WORK['seed']
+    watchdog = getattr(mod, 'WATCHDOG', 90)
+    # the in-process watchdog fires after `watchdog` CPU seconds (or
+    # max(120, 20 x) wall seconds) without a re-arm; past that plus a margin
+    # the signal evidently cannot be delivered
+    hard_cpu = 2 * watchdog + 30
+    hard_wall = max(120, 20 * watchdog) + 120
+    queue = list(reversed(indexed))
+    results, live = [], {}
+
+    def spawn():
+        parent, child = ctxm.Pipe()
+        beat = ctxm.Array('d', [time.time(), 0.0], lock=False)
+        proc = ctxm.Process(target=_worker_main, args=(child, beat),
+                            daemon=True)
+        proc.start()
+        child.close()
+        live[parent] = {'proc': proc, 'beat': beat, 'item': None}
+        return parent
+
+    def feed(conn):
+        slot = live[conn]
+        if queue:
+            slot['item'] = queue.pop()
+            slot['beat'][0] = time.time()
+            conn.send(slot['item'])
+        else:
+            slot['item'] = None
+            with contextlib.suppress(OSError):
+                conn.send(None)
+            conn.close()
+            slot['proc'].join(5)
+            del live[conn]
+
+    def bury(conn, fingerprint, message, observed):
+        slot = live.pop(conn)
+        proc = slot['proc']
+        if proc.is_alive():
+            proc.kill()
+        proc.join(10)
+        with contextlib.suppress(OSError):
+            conn.close()
+        if slot['item'] is not None:
+            results.append(_lost(mod, tier, seed, slot['item'], fingerprint,
+                                 message, observed))
+        if queue:
+            feed(spawn())
+
+    for _ in range(nworkers):
+        feed(spawn())
+    while live:
+        ready = connection.wait(list(live), timeout=5)
+        for conn in ready:
+            slot = live.get(conn)
+            if slot is None:
+                continue
+            try:
+                res = conn.recv()
+            except (EOFError, OSError):
+                slot['proc'].join(10)
+                code = slot['proc'].exitcode
+                bury(conn, 'died', 'the worker process died (exit code {}) '
+                     'while running it: the library took the interpreter '
+                     'down or was killed for the memory it '
+                     'used'.format(code), 'worker exit code %r' % (code,))
+                continue
+            results.append(res)
+            feed(conn)
+        now = time.time()
+        for conn in list(live):
+            slot = live[conn]
+            if slot['item'] is None:
+                continue
+            cpu = _cpu_of(slot['proc'].pid)
+            spent = None if cpu is None else cpu - slot['beat'][1]
+            if spent is not None and spent > hard_cpu:
+                bury(conn, 'hang', 'a library call did not give control back '
+                     'to the interpreter within {:.0f} s of CPU time (the '
+                     'watchdog signal cannot be delivered: the time is spent '
+                     'inside a single C-level call)'.format(spent),
+                     'no sign of life for %d CPU s' % hard_cpu)
+            elif now - slot['beat'][0] > hard_wall:
+                bury(conn, 'hang', 'a library call neither returned nor '
+                     'reacted to the watchdog for {} s'.format(hard_wall),
+                     'no sign of life for %d s' % hard_wall)
+    return results
+
+
 def run_tasks(mod, tasks, tier, seed, workers=None):
     """Run mod.run(task, ctx) for every task on a pool; deterministic merge."""
     _WORK.update(mod=mod, tier=tier, seed=seed)
@@ -381,11 +534,7 @@ def run_tasks(mod, tasks, tier, seed, workers=None):
     if workers <= 1 or len(indexed) <= 1:
         results = [_run_one(t) for t in indexed]
     else:
-        ctxm = multiprocessing.get_context('fork')
-        with ctxm.Pool(min(workers, len(indexed)),
-                       initializer=_limit_memory) as pool:
-            for res in pool.imap_unordered(_run_one, indexed, chunksize=1):
-                results.append(res)
+        results = _dispatch(mod, indexed, min(workers, len(indexed)))
     results.sort(key=lambda r: r['index'])
     merged = Merged()
     merged.slowest = sorted(((round(r['wall'], 2), r['task'])
